@@ -403,12 +403,26 @@ pub proof fn lemma_blob(l: Layout)
              "base_ty.spec_layout(old(self).ctx).is_some() ==> final(self).latest_field_layout == base_ty.spec_layout(old(self).ctx)",
              "final(self).max_field_align >= old(self).max_field_align",
          ]},
+        # added by the F5 repair (/repo commit c363bfdc): padding up to the C offset of a bit-field unit
+        {"kind": "fn", "file": SL, "name": "pad_to_bitfield_unit", **TR, "ret": "r",
+         "subst": [("Option<proc_macro2::TokenStream>", "Option<Tok>", 1, "R4")],
+         "requires": ["old(self).inv()", "old(self).small()", "unit_offset.is_some() ==> unit_offset.unwrap() / 8 < BIG"],
+         "ensures": [
+             "final(self).inv() && final(self).same_config(old(self))",
+             "final(self).latest_field_layout == old(self).latest_field_layout && final(self).last_field_was_bitfield == old(self).last_field_was_bitfield",
+             "(old(self).is_packed || old(self).comp.spec_is_union() || unit_offset.is_none() || unit_offset.unwrap() / 8 <= old(self).latest_offset) ==> r.is_none() && final(self).latest_offset == old(self).latest_offset",
+             # PLACEMENT THEOREM for bit-field units (C02/C03): the byte-aligned unit that follows lands at the C offset
+             "(!old(self).is_packed && !old(self).comp.spec_is_union() && unit_offset.is_some() && unit_offset.unwrap() / 8 >= old(self).latest_offset) ==> place_after(old(self).latest_offset as int, r, 1) == unit_offset.unwrap() / 8 && final(self).latest_offset == unit_offset.unwrap() / 8",
+         ],
+         "proof_start": "reveal_with_fuel(is_pow2, 2);"},
         {"kind": "fn", "file": SL, "name": "saw_bitfield_unit", **TR,
          "requires": ["old(self).inv()", "old(self).small()", "valid_layout(layout)"],
          "ensures": [
              "final(self).inv() && final(self).same_config(old(self))",
              "final(self).latest_field_layout == Some(layout) && final(self).last_field_was_bitfield",
              "final(self).latest_offset >= old(self).latest_offset + layout.size",
+             # the unit occupies exactly [old offset, old offset + size) when the running offset is aligned for the previous field
+             "(old(self).is_packed || old(self).latest_field_layout.is_none() || old(self).latest_offset as int % layout_align1(old(self).latest_field_layout.unwrap()) == 0) ==> final(self).latest_offset == old(self).latest_offset + layout.size",
              "final(self).max_field_align == (if old(self).max_field_align >= layout.align { old(self).max_field_align } else { layout.align })",
          ]},
         {"kind": "fn", "file": SL, "name": "saw_field_with_layout", **TR, "ret": "r",
